@@ -122,7 +122,10 @@ def parse(s: str) -> int:
         return 0
 ''',
 }
-SUTS = ["tri", "strings", "containers", "account", "colors", "queue_", "printer", "lastcall", "floats", "shapes", "oneliners"]
+# shared_lines / oneline_first (vlib/sut_corpus): one source line is the first line of branch-less code objects (lambdas, one-line
+# defs, the module itself) AND carries predicates of another code object, or several code objects start on it
+SUTS = ["tri", "strings", "containers", "account", "colors", "queue_", "printer", "lastcall", "floats", "shapes", "oneliners",
+        "shared_lines", "oneline_first"]
 
 
 def floors(tier):
@@ -131,7 +134,10 @@ def floors(tier):
             "classes": {"report": 30 * k, "report:BRANCH+LINE": 24 * k, "report:BRANCH": 2 * k, "report:LINE": 2 * k,
                         "xml-parsed": 30 * k, "html-parsed": 30 * k, "line-annotation": 1500 * k, "branch-line": 200 * k,
                         "branchless-line": 150 * k, "line:covered": 300 * k, "line:not-covered": 60 * k,
-                        "report:partial-coverage": 10 * k, "report:sut:shapes": 2, "report:sut:oneliners": 2}}
+                        "report:partial-coverage": 10 * k, "report:sut:shapes": 2, "report:sut:oneliners": 2,
+                        "report:sut:shared_lines": 4, "report:sut:oneline_first": 3,
+                        "line-with-branchless-entry-and-predicate": 12 * k, "line-with-branchless-entry-and-predicate:covered-differently": 3,
+                        "line-with-several-code-object-entries": 8 * k, "report:BRANCH:shared-lines": 2, "xml-branch-sum": 30 * k}}
 
 
 def directed_runs():
@@ -144,8 +150,8 @@ def directed_runs():
             runs.append({"sut": sut, "algorithm": algos[(i + rep) % len(algos)], "seed": 350 + i, "iterations": [3, 5, 8][(i + rep) % 3],
                          "metrics": ["BRANCH", "LINE"], "strategy": strategies[i % 4], "assertion_generation": "SIMPLE" if i % 3 else "NONE"})
             i += 1
-    for j, sut in enumerate(["tri", "shapes", "queue_"]):
-        runs.append({"sut": sut, "algorithm": "DYNAMOSA", "seed": 400 + j, "iterations": 5, "metrics": ["BRANCH"], "strategy": "CASE",
+    for j, sut in enumerate(["tri", "shapes", "queue_", "shared_lines", "oneline_first", "shared_lines"]):
+        runs.append({"sut": sut, "algorithm": "DYNAMOSA", "seed": 400 + j, "iterations": [5, 5, 5, 6, 3, 2][j], "metrics": ["BRANCH"], "strategy": "CASE",
                      "assertion_generation": "NONE"})
     for j, sut in enumerate(["oneliners", "lastcall", "printer"]):
         runs.append({"sut": sut, "algorithm": "MOSA", "seed": 410 + j, "iterations": 5, "metrics": ["LINE"], "strategy": "CASE",
@@ -320,6 +326,12 @@ def evaluate(ctx, run, ev, files, tag):
                 cls.append("branch-line")
             if wl[1]:
                 cls.append("branchless-line")
+            if wb[1] and wl[1]:
+                cls.append("line-with-branchless-entry-and-predicate")
+                if (wb[0] == wb[1]) != (wl[0] == wl[1]) or (wb[0] == 0) != (wl[0] == 0):
+                    cls.append("line-with-branchless-entry-and-predicate:covered-differently")
+            if wl[1] >= 2:
+                cls.append("line-with-several-code-object-entries")
             if br != wb:
                 wit(f"annotation:branches-on-line-differ:{why}", f"line {ln}: annotation branches {br}, reference {wb}", line=ln)
             if bl != wl:
@@ -341,6 +353,8 @@ def evaluate(ctx, run, ev, files, tag):
         check_html(ctx, wit, html, rep, ann)
     partial = ("BRANCH" in metrics and ref["branch_coverage"] < 1.0) or ("LINE" in metrics and ref["line_coverage"] < 1.0)
     cls = ["report", f"report:{mcls}", f"report:sut:{run['sut']}", f"report:algorithm:{run['algorithm']}"]
+    if run["sut"] in ("shared_lines", "oneline_first"):
+        cls.append(f"report:{mcls}:shared-lines")
     if partial:
         cls.append("report:partial-coverage")
     ctx.ok(cls=cls, distinct=run)
@@ -392,6 +406,19 @@ def check_xml(ctx, wit, xml, rep, ref, metrics, covered, existing):
     want_listed = {ln for ln in want_listed if 1 <= ln <= rep["source_lines"]}
     if listed != want_listed:
         wit("xml:set-of-listed-lines-differs", f"only in xml {sorted(listed - want_listed)[:8]}, missing from xml {sorted(want_listed - listed)[:8]}")
+    if "BRANCH" in metrics:
+        sc = se = 0
+        for a in lines.values():
+            m = re.search(r"\((\d+)/(\d+)\)", a.get("condition-coverage", ""))
+            if m:
+                sc, se = sc + int(m.group(1)), se + int(m.group(2))
+        ctx.ok(cls="xml-branch-sum")
+        ref_tot = [ref["branches"][i] + ref["branchless"][i] for i in (0, 1)]
+        if [float(sc), float(se)] != [num("branches-covered"), num("branches-valid")]:
+            wit("xml:sum-of-condition-coverage-differs-from-header", f"sum over <line condition-coverage> = {sc}/{se}, header branches-covered/valid = "
+                f"{at.get('branches-covered')}/{at.get('branches-valid')}")
+        if [sc, se] != ref_tot:
+            wit("xml:sum-of-condition-coverage-differs-from-reference", f"sum over <line condition-coverage> = {sc}/{se}, recomputed totals {ref_tot}")
     for n, a in lines.items():
         ctx.ok(cls="xml-line")
         bc, be = (0, 0)
@@ -464,6 +491,7 @@ def run_chunk(spec, ctx):
     from vlib import sut_corpus
 
     proj = sut_corpus.copy_to(ctx.scratch / "proj")
+    sut_corpus.copy_to(proj, names=sut_corpus.SHARED_LINES)
     for name, src in EXTRA_SUTS.items():
         (proj / f"{name}.py").write_text(src)
     for i, run in enumerate(spec["runs"]):
